@@ -629,6 +629,7 @@ func expectationFor(msg, field string, ft types.Type, st map[string]LangSpec) (f
 
 // C16 — stateless acceptance equals the documented limits.
 func checkC16(p *Prog, r *Report) {
+	checkPartialUpdates(p, r, func(rule, rest string) string { return rule + ":C16:" + rest }, "x/*/keeper", func(fn *ssa.Function) bool { return InPkgs(fn, "x/aol/keeper", "x/did/keeper", "x/pnft/keeper", "x/burn/keeper") })
 	checkNoNilWrap(p, r, "C16", "x/<module>/types", func(fn *ssa.Function) bool {
 		return inExactPkgs(fn, "x/aol/types", "x/did/types", "x/pnft/types", "x/burn/types")
 	})
